@@ -49,6 +49,7 @@ Act(op) ==
     [] op[1] = "fill"       -> Fill(op[2])
     [] op[1] = "drop"       -> Drop(op[2])
     [] op[1] = "composite"  -> Composite(CHOOSE cf \in CompForms : cf.f = op[3])
+    [] op[1] = "deserialize" -> Deserialize(CHOOSE df \in DeserForms : df.f = op[3])
 
 TOp == /\ IsEv("op")
        /\ Act(Rec[l].op)
